@@ -47,6 +47,20 @@ def coder_records(prog):
                         endfn = rs["n"]
         if has_coder_store and coder_rec:
             out.append((f, coder_rec, endfn))
+            continue
+        # second form: the record is reached through a `void **coder_ptr` parameter (lzma_lzma_encoder_create):
+        # `T *coder = *coder_ptr;`
+        pp = {p["n"] for p in f.params if (p.get("ty") or "").replace(" ", "").startswith("void**")}
+        if pp and f.blocks:
+            for b, i, e in f.iter_elems():
+                d = ex.deref(e)
+                if d.get("k") == "decl" and d.get("init") is not None:
+                    i0 = ex.strip(d["init"])
+                    if i0 is not None and i0.get("k") == "un" and i0["op"] == "*" and \
+                            ex.strip(i0["e"]).get("k") == "var" and ex.strip(i0["e"])["n"] in pp:
+                        for v in f.vars:
+                            if v["n"] == d["n"] and v.get("prec"):
+                                out.append((f, v["prec"], None))
     return out
 
 
@@ -578,6 +592,212 @@ def check_reown(ck, prog):
     return n
 
 
+def check_localalloc(ck, prog, rule="C10-LOCALALLOC"):
+    """A block obtained from lzma_alloc*() into a LOCAL pointer is, on every path from the allocation to a return,
+    freed, returned, stored somewhere that outlives the function (a member, *out-parameter, a global) or handed to a
+    callee.  The NULL edge of a test of the pointer is not followed.  (Members are covered by C10-END / C10-INITORD.)"""
+    ck.rule(rule, "a block allocated into a local pointer is freed, returned, stored or handed over on every path to a return")
+    n = 0
+    for f in sorted(prog.all_functions("liblzma"), key=lambda f: (f.file, f.line)):
+        if not f.blocks:
+            continue
+        locs = {v["n"] for v in f.vars if not v.get("param")}
+        allocs = {}
+        for b, i, e in f.iter_elems():
+            d = ex.deref(e)
+            if d.get("k") == "decl" and d.get("init") is not None and d["n"] in locs:
+                i0 = ex.strip(d["init"])
+                if i0 is not None and i0.get("k") == "call" and i0.get("fn") in ("lzma_alloc", "lzma_alloc_zero"):
+                    allocs[(d["n"], b.id, i)] = e
+            for (l, r, op, nd) in ex.writes(e):
+                ls, rr = ex.strip(l), (ex.strip(r) if r is not None else None)
+                if ls is not None and ls.get("k") == "var" and ls["n"] in locs and rr is not None and rr.get("k") == "call" \
+                        and rr.get("fn") in ("lzma_alloc", "lzma_alloc_zero") and op == "=":
+                    allocs[(ls["n"], b.id, i)] = e
+        for (v, bid, idx), e0 in sorted(allocs.items(), key=lambda kv: (kv[0][1], kv[0][2])):
+            n += 1
+            ck.saw_function(f)
+
+            def mentions(x_):
+                return x_ is not None and any(y.get("k") == "var" and y["n"] == v for y in ex.walk(x_))
+            esc = {}
+            for b, i, e in f.iter_elems():
+                ev = False
+                d = ex.deref(e)
+                if d.get("k") == "ret" and mentions(d.get("e")):
+                    ev = True
+                for (l, r, op, nd) in ex.writes(e):
+                    ls = ex.strip(l)
+                    if mentions(r) and ls is not None and (ls.get("k") != "var" or ls["n"] not in locs):
+                        ev = True
+                for c in ex.calls(e, into_refs=False):
+                    if any(mentions(a) for a in c.get("args", ())):
+                        ev = True
+                if ev and not (b.id == bid and i <= idx):
+                    esc[b.id] = min(esc.get(b.id, 1 << 30), i)
+            seen, st, leak = set(), [(bid, idx + 1)], None
+            while st:
+                x, start = st.pop()
+                if start == 0:
+                    if x in seen:
+                        continue
+                    seen.add(x)
+                blk = f.blocks[x]
+                if x in esc and esc[x] >= start:
+                    continue
+                rets_ = [k for k, ee in enumerate(blk.elems) if ee is not None and k >= start and ex.deref(ee).get("k") == "ret"]
+                if rets_ or x == f.exit:
+                    leak = (x, blk.elems[rets_[0]] if rets_ else None)
+                    break
+                succs = list(blk.succs)
+                t = blk.term
+                if t and "cond" in t and len(succs) == 2:
+                    c = ex.strip(t["cond"])
+                    if c is not None and c.get("k") == "bin" and c["op"] in ("==", "!=") and \
+                            ex.strip(c["l"]).get("k") == "var" and ex.strip(c["l"])["n"] == v and ex.is_const(c["r"], 0):
+                        succs = [succs[1]] if c["op"] == "==" else [succs[0]]
+                    elif c is not None and c.get("k") == "un" and c["op"] == "!" and ex.strip(c["e"]).get("k") == "var" \
+                            and ex.strip(c["e"])["n"] == v:
+                        succs = [succs[1]]
+                st.extend((y, 0) for y in succs if y is not None)
+            ck.ob(rule, "%s:%s@%s" % (f.name, v, ex.line(e0)), leak is None, common.where(f, leak[1] if leak and leak[1] is not None else e0),
+                  "%s(): the block allocated into `%s` (line %s) is freed, stored or handed over on every path" % (f.name, v, ex.line(e0))
+                  if leak is None else
+                  "%s(): the block allocated into the local `%s` at line %s is still owned only by that local when the function "
+                  "returns (block %d): nothing can free it any more" % (f.name, v, ex.line(e0), leak[0]),
+                  key="LOCALALLOC:%s:%s" % (f.name, v))
+    ck.floor(rule, 30)
+    return n
+
+
+def check_localcoder(ck, prog, rule="C10-LOCALCODER"):
+    """A function-local lzma_next_coder that was handed to an init function is ended (lzma_next_end(&X)) on every path
+    from that call to a return -- also when the init failed half-way: only the local knows the partly built coder."""
+    ck.rule(rule, "a function-local lzma_next_coder is ended on every path after it was given to an init function")
+    n = 0
+    for f in sorted(prog.all_functions("liblzma"), key=lambda f: (f.file, f.line)):
+        if not f.blocks:
+            continue
+        for v in f.vars:
+            if v.get("param") or not (v.get("ty") or "").startswith("lzma_next_coder") or "*" in (v.get("ty") or ""):
+                continue
+            X = v["n"]
+
+            def addr_of(a):
+                a0 = ex.strip(a)
+                return a0 is not None and a0.get("k") == "un" and a0["op"] == "&" and \
+                    ex.strip(a0["e"]) is not None and ex.strip(a0["e"]).get("k") == "var" and ex.strip(a0["e"])["n"] == X
+            inits, ends = [], {}
+            for b, i, e in f.iter_elems():
+                for c in ex.calls(e, into_refs=False):
+                    if not any(addr_of(a) for a in c.get("args", ())):
+                        continue
+                    if c.get("fn") == "lzma_next_end":
+                        ends[b.id] = min(ends.get(b.id, 1 << 30), i)
+                    elif c.get("fn"):
+                        inits.append((b.id, i, c))
+            if not inits:
+                continue
+            n += 1
+            ck.saw_function(f)
+            b0, i0, c0 = min(inits, key=lambda t: (ex.line(t[2]) or 0))
+
+            def self_cleaning(name, depth=2):
+                """the init function ends `next` itself when it fails (lzma_raw_coder_init does)"""
+                for g in prog.functions.get(name, []):
+                    if not g.blocks or not g.params:
+                        continue
+                    p0 = g.params[0]["n"]
+                    for bb, ii, ee in g.iter_elems():
+                        for cc in ex.calls(ee, into_refs=False):
+                            a = [ex.strip(x) for x in cc.get("args", ())]
+                            if cc.get("fn") == "lzma_next_end" and a and a[0] is not None and a[0].get("k") == "var" and a[0]["n"] == p0:
+                                return True
+                            if depth and cc.get("fn") and a and a[0] is not None and a[0].get("k") == "var" and a[0]["n"] == p0 \
+                                    and self_cleaning(cc["fn"], depth - 1):
+                                return True
+                return False
+            start = [(b0, i0 + 1)]
+            blk0 = f.blocks[b0]
+            if self_cleaning(c0.get("fn")) and blk0.term and "cond" in blk0.term and len(blk0.succs) == 2 and \
+                    ex.show(ex.strip(blk0.term["cond"])).endswith("!= LZMA_OK") and \
+                    not any(ee is not None and ex.deref(ee).get("k") == "ret" for ee in blk0.elems[i0 + 1:]):
+                start = [(blk0.succs[1], 0)]
+            seen, st, leak = set(), start, None
+            while st:
+                x, start = st.pop()
+                if start == 0:
+                    if x in seen:
+                        continue
+                    seen.add(x)
+                blk = f.blocks[x]
+                if x in ends and ends[x] >= start:
+                    continue
+                rets_ = [k for k, ee in enumerate(blk.elems) if ee is not None and k >= start and ex.deref(ee).get("k") == "ret"]
+                if rets_ or x == f.exit:
+                    leak = (x, blk.elems[rets_[0]] if rets_ else None)
+                    break
+                st.extend((y, 0) for y in blk.succs if y is not None)
+            ck.ob(rule, "%s:%s" % (f.name, X), leak is None, common.where(f, leak[1] if leak and leak[1] is not None else c0),
+                  "%s(): lzma_next_end(&%s) on every path after %s(&%s, ...)" % (f.name, X, c0.get("fn"), X) if leak is None else
+                  "%s(): a return (block %d) is reachable after %s(&%s, ...) without lzma_next_end(&%s): when the initialisation "
+                  "fails half-way (an allocation in the middle of it) the partly built coder is leaked" % (
+                      f.name, leak[0], c0.get("fn"), X, X), key="LOCALCODER:%s:%s" % (f.name, X))
+    ck.floor(rule, 5)
+    return n
+
+
+def check_init_fail_frees(ck, prog, rule="C10-STRM"):
+    """"If initialization fails, all the memory allocated for *strm by liblzma is always freed."  lzma_next_strm_init()
+    (through lzma_strm_init + the init function + lzma_end on failure) guarantees that once it runs.  An error return
+    that comes BEFORE the handle was handed to it, or to another public initialiser, leaves a coder from an earlier
+    session allocated and active: it has to be preceded by lzma_end(strm)."""
+    n = 0
+    for f in sorted(prog.all_functions("liblzma"), key=lambda f: (f.file, f.line)):
+        if not f.blocks or f.static:
+            continue
+        sp = [v["n"] for v in f.vars if v.get("param") and v.get("prec") == "lzma_stream"]
+        if not sp:
+            continue
+        P = sp[0]
+        hand = set()
+        ends = set()
+        for b, i, e in f.iter_elems():
+            for c in ex.calls(e, into_refs=False):
+                a = [ex.show(ex.strip(x)) for x in c.get("args", ())]
+                if c.get("fn") == "lzma_end" and a and a[0] == P:
+                    ends.add(b.id)
+                elif c.get("fn") == "lzma_strm_init" or (c.get("fn") and a and a[0] == P and c["fn"] not in (
+                        "lzma_end", "lzma_code", "lzma_memusage", "lzma_memlimit_get", "lzma_memlimit_set")):
+                    hand.add(b.id)
+        if not hand:
+            continue
+        n += 1
+        ck.saw_function(f)
+        seen, st, hit = set(), [f.entry], None
+        while st:
+            x = st.pop()
+            if x in seen or x is None or x in hand or x in ends:
+                continue
+            seen.add(x)
+            for e in f.blocks[x].elems:
+                d = ex.deref(e) if e is not None else {}
+                if d.get("k") == "ret" and d.get("e") is not None and ex.const_val(d["e"]) not in (None, 0):
+                    hit = e
+            if hit is not None:
+                break
+            st.extend(f.blocks[x].succs)
+        ck.ob(rule, "%s:fail-frees" % f.name, hit is None, common.where(f, hit),
+              "%s(): no error return before the handle is (re)initialised" % f.name if hit is None else
+              "%s(): `%s` (line %s) comes before the handle is given to lzma_strm_init()/another initialiser and without "
+              "lzma_end(%s): a coder from an earlier use of the handle stays allocated and active although the documentation "
+              "promises that a failed initialisation frees everything (lzma_code() then continues the OLD stream)" % (
+                  f.name, ex.show(hit), ex.line(hit), P), key="STRM:%s:fail-frees" % f.name)
+    if n < 15:
+        raise AnalysisBroken("%s: only %d public stream initialisers found" % (rule, n))
+    return n
+
+
 def check_cachekey(ck, prog):
     """`if (K != wanted) { free(P); P = alloc(); if (P == NULL) return error; K = wanted; }`: the member K that
     says "P already has the right size" may only be updated once P is known to be non-NULL."""
@@ -1015,6 +1235,39 @@ def check_sizekey(ck, prog, rule="C10-SIZEKEY", files=None, floor=6):
                   "old size is then used with the new bound (overflow when the size grows)" % (
                       f.name, ex.show(node)[:70], ex.line(node), P[1], sites[0][0].name, ex.show(sites[0][2])[:70]),
                   key="SIZEKEY:%s:%s:%s" % (f.name, P[1], M[1]))
+    # the comparison `old == M` that decides to KEEP the buffer is meaningful only if M already has its final value: a
+    # store to M after the comparison (sons_count doubled for the binary-tree finders after the test) invalidates it
+    for f in fns:
+        if files is not None and f.file.rsplit("/", 1)[-1] not in files:
+            continue
+        olds = {}
+        for bb, ii, ee in f.iter_elems():
+            e_ = ex.deref(ee)
+            if e_.get("k") == "decl" and e_.get("init") is not None:
+                fk = ex.field_key(e_["init"])
+                if fk and any(M == fk for (P, M) in pairs):
+                    olds[e_["n"]] = fk
+        for tb in f.blocks.values():
+            if not (tb.term and "cond" in tb.term):
+                continue
+            for c in ex.walk(tb.term["cond"]):
+                if c.get("k") != "bin" or c["op"] not in ("==", "!="):
+                    continue
+                a, d = ex.strip(c["l"]), ex.strip(c["r"])
+                for x, y in ((a, d), (d, a)):
+                    if x is not None and x.get("k") == "var" and x["n"] in olds and ex.field_key(y) == olds[x["n"]]:
+                        M = olds[x["n"]]
+                        after = cfg.reachable(f, [z for z in tb.succs if z is not None])
+                        late = [nd for bb, ii, ee in f.iter_elems() if bb.id in after
+                                for (l2, r2, op2, nd) in ex.writes(ee) if ex.field_key(l2) == M]
+                        n += 1
+                        ck.ob(rule, "%s:%s:final" % (f.name, M[1]), not late, common.where(f, late[0] if late else c),
+                              "%s(): %s has its final value when it is compared with %s" % (f.name, M[1], x["n"]) if not late else
+                              "%s(): `%s` changes %s after it was compared with %s to decide whether the old allocation can be "
+                              "kept: a re-initialisation that needs a bigger array (hash chain -> binary tree at the same "
+                              "dictionary size) keeps the smaller one and writes past its end" % (
+                                  f.name, ex.show(late[0])[:50], M[1], x["n"]), key="%s:%s:%s:final" % (
+                                      rule.split("-", 1)[1], f.name, M[1]))
     ck.floor(rule, floor)
 
 
@@ -1111,6 +1364,12 @@ def run(ck):
     check_initord(ck, prog)
     check_cachekey(ck, prog)
     check_reown(ck, prog)
+    # "objects owned by the caller are left unchanged": single-call coders put the position back on every error (C02)
+    from . import C02
+    C02.check_rewind(ck, prog, rule="C10-REWIND")
+    check_localalloc(ck, prog)
+    check_localcoder(ck, prog)
+    check_init_fail_frees(ck, prog)
     check_sizekey(ck, prog)
     check_syncend(ck, prog)
     check_local_index(ck, prog)
